@@ -302,6 +302,7 @@ fn adv_strategy(nkeys: u64, big: bool) -> BoxedStrategy<Adv> {
         2 => proptest::sample::select(bigs).prop_map(Adv::Ns),
         4 => proptest::sample::select(vec![-1i64, 0, 1]).prop_map(Adv::NextSecond),
         5 => (0..nkeys, proptest::sample::select(vec![-1i64, 0, 1, NS - 1, NS, NS + 1])).prop_map(|(k, d)| Adv::Deadline(k, d)),
+        3 => (any::<u8>(), proptest::sample::select(vec![-1i64, 0, 1, 500_000_000, NS - 1])).prop_map(|(i, d)| Adv::OldDeadline(i, d)),
     ]
     .boxed()
 }
